@@ -192,6 +192,7 @@ func limModel(mc limModelCfg) porcupine.Model {
 }
 
 func limiterMain(s *simrt.Sim, info *harness.RunInfo) {
+	harness.ChooseTransportNoPause(s, 150) // some runs go through fasthttp's real connection loop
 	sliding := s.Chance(500)
 	cfgMax := s.Range(1, 5)
 	E := simrt.PickS(s, 2, 1, 3, 5)
